@@ -14,7 +14,7 @@ try:
         r = subprocess.run([os.path.join(V, "check"), p, "quick"], env=env, cwd=V, capture_output=True, text=True)
         print("==", p, r.returncode)
         for l in (r.stdout + r.stderr).splitlines():
-            if "FAIL" in l or "VIOLATION" in l or "Traceback" in l or "Error" in l:
+            if "ALPHA" in l or "FAIL" in l or "VIOLATION" in l or "Traceback" in l or "Error" in l:
                 print(l[:1500])
 finally:
     shutil.rmtree(s, ignore_errors=True)
